@@ -27,6 +27,7 @@ import (
 	zknth "github.com/taurusgroup/multi-party-sig/pkg/zk/nth"
 	zkprm "github.com/taurusgroup/multi-party-sig/pkg/zk/prm"
 	zksch "github.com/taurusgroup/multi-party-sig/pkg/zk/sch"
+	"github.com/taurusgroup/multi-party-sig/verif/fx"
 	"github.com/taurusgroup/multi-party-sig/verif/ref"
 	"github.com/taurusgroup/multi-party-sig/verif/vk"
 )
@@ -134,8 +135,9 @@ var zkSystems = []zkSystem{
 		k := bigWitness(r, class, 256)
 		K, rho := e.prover.sk.PublicKey.Enc(intOf(k))
 		pub := zkenc.Public{K: K, Prover: e.prover.sk.PublicKey, Aux: e.aux}
+		priv := zkenc.Private{K: intOf(k), Rho: rho} // one witness object for every proof made from this instance
 		return &zkInst{pub: addr(pub),
-			prove:  func(h *hash.Hash) interface{} { return zkenc.NewProof(group, h, pub, zkenc.Private{K: intOf(k), Rho: rho}) },
+			prove:  func(h *hash.Hash) interface{} { return zkenc.NewProof(group, h, pub, priv) },
 			verify: func(h *hash.Hash, p reflect.Value, pr interface{}) bool { return pr.(*zkenc.Proof).Verify(group, h, p.Interface().(zkenc.Public)) }}
 	}},
 	{"logstar", rangeClasses, func(r *vk.Rand, e zkEnv, class string) *zkInst {
@@ -143,8 +145,9 @@ var zkSystems = []zkSystem{
 		G := LibScalar(randScalarBig(r)).ActOnBase()
 		C, rho := e.prover.sk.PublicKey.Enc(intOf(x))
 		pub := zklogstar.Public{C: C, X: modQ(x).Act(G), G: G, Prover: e.prover.sk.PublicKey, Aux: e.aux}
+		priv := zklogstar.Private{X: intOf(x), Rho: rho} // one witness object for every proof made from this instance
 		return &zkInst{pub: addr(pub),
-			prove:  func(h *hash.Hash) interface{} { return zklogstar.NewProof(group, h, pub, zklogstar.Private{X: intOf(x), Rho: rho}) },
+			prove:  func(h *hash.Hash) interface{} { return zklogstar.NewProof(group, h, pub, priv) },
 			verify: func(h *hash.Hash, p reflect.Value, pr interface{}) bool { return pr.(*zklogstar.Proof).Verify(h, p.Interface().(zklogstar.Public)) }}
 	}},
 	{"encelg", rangeClasses, func(r *vk.Rand, e zkEnv, class string) *zkInst {
@@ -153,16 +156,18 @@ var zkSystems = []zkSystem{
 		abx := group.NewScalar().Set(a).Mul(b).Add(modQ(x))
 		C, rho := e.prover.sk.PublicKey.Enc(intOf(x))
 		pub := zkencelg.Public{C: C, A: a.ActOnBase(), B: b.ActOnBase(), X: abx.ActOnBase(), Prover: e.prover.sk.PublicKey, Aux: e.aux}
+		priv := zkencelg.Private{X: intOf(x), Rho: rho, A: a, B: b} // one witness object for every proof made from this instance
 		return &zkInst{pub: addr(pub),
-			prove:  func(h *hash.Hash) interface{} { return zkencelg.NewProof(group, h, pub, zkencelg.Private{X: intOf(x), Rho: rho, A: a, B: b}) },
+			prove:  func(h *hash.Hash) interface{} { return zkencelg.NewProof(group, h, pub, priv) },
 			verify: func(h *hash.Hash, p reflect.Value, pr interface{}) bool { return pr.(*zkencelg.Proof).Verify(h, p.Interface().(zkencelg.Public)) }}
 	}},
 	{"dec", []string{"0", "+1", "-1", "+max", "-max", "random"}, func(r *vk.Rand, e zkEnv, class string) *zkInst {
 		y := bigWitness(r, class, 256)
 		C, rho := e.prover.sk.PublicKey.Enc(intOf(y))
 		pub := zkdec.Public{C: C, X: modQ(y), Prover: e.prover.sk.PublicKey, Aux: e.aux}
+		priv := zkdec.Private{Y: intOf(y), Rho: rho} // one witness object for every proof made from this instance
 		return &zkInst{pub: addr(pub),
-			prove:  func(h *hash.Hash) interface{} { return zkdec.NewProof(group, h, pub, zkdec.Private{Y: intOf(y), Rho: rho}) },
+			prove:  func(h *hash.Hash) interface{} { return zkdec.NewProof(group, h, pub, priv) },
 			verify: func(h *hash.Hash, p reflect.Value, pr interface{}) bool { return pr.(*zkdec.Proof).Verify(h, p.Interface().(zkdec.Public)) }}
 	}},
 	{"affg", rangeClassesXY, func(r *vk.Rand, e zkEnv, class string) *zkInst {
@@ -173,9 +178,10 @@ var zkSystems = []zkSystem{
 		D, S := ver.Enc(intOf(y))
 		D.Add(ver, kv.Clone().Mul(ver, intOf(x)))
 		pub := zkaffg.Public{Kv: kv, Dv: D, Fp: Fp, Xp: modQ(x).ActOnBase(), Prover: prov, Verifier: ver, Aux: e.aux}
+		priv := zkaffg.Private{X: intOf(x), Y: intOf(y), S: S, R: R} // one witness object for every proof made from this instance
 		return &zkInst{pub: addr(pub),
 			prove: func(h *hash.Hash) interface{} {
-				return zkaffg.NewProof(group, h, pub, zkaffg.Private{X: intOf(x), Y: intOf(y), S: S, R: R})
+				return zkaffg.NewProof(group, h, pub, priv)
 			},
 			verify: func(h *hash.Hash, p reflect.Value, pr interface{}) bool { return pr.(*zkaffg.Proof).Verify(h, p.Interface().(zkaffg.Public)) }}
 	}},
@@ -188,9 +194,10 @@ var zkSystems = []zkSystem{
 		D, S := ver.Enc(intOf(y))
 		D.Add(ver, kv.Clone().Mul(ver, intOf(x)))
 		pub := zkaffp.Public{Kv: kv, Dv: D, Fp: Fp, Xp: Xp, Prover: prov, Verifier: ver, Aux: e.aux}
+		priv := zkaffp.Private{X: intOf(x), Y: intOf(y), S: S, Rx: Rx, R: R} // one witness object for every proof made from this instance
 		return &zkInst{pub: addr(pub),
 			prove: func(h *hash.Hash) interface{} {
-				return zkaffp.NewProof(group, h, pub, zkaffp.Private{X: intOf(x), Y: intOf(y), S: S, Rx: Rx, R: R})
+				return zkaffp.NewProof(group, h, pub, priv)
 			},
 			verify: func(h *hash.Hash, p reflect.Value, pr interface{}) bool { return pr.(*zkaffp.Proof).Verify(group, h, p.Interface().(zkaffp.Public)) }}
 	}},
@@ -202,8 +209,9 @@ var zkSystems = []zkSystem{
 		C := Y.Clone().Mul(prov, intOf(x))
 		rho := C.Randomize(prov, nil)
 		pub := zkmul.Public{X: X, Y: Y, C: C, Prover: prov}
+		priv := zkmul.Private{X: intOf(x), Rho: rho, RhoX: rhoX} // one witness object for every proof made from this instance
 		return &zkInst{pub: addr(pub),
-			prove:  func(h *hash.Hash) interface{} { return zkmul.NewProof(group, h, pub, zkmul.Private{X: intOf(x), Rho: rho, RhoX: rhoX}) },
+			prove:  func(h *hash.Hash) interface{} { return zkmul.NewProof(group, h, pub, priv) },
 			verify: func(h *hash.Hash, p reflect.Value, pr interface{}) bool { return pr.(*zkmul.Proof).Verify(group, h, p.Interface().(zkmul.Public)) }}
 	}},
 	{"mulstar", rangeClasses, func(r *vk.Rand, e zkEnv, class string) *zkInst {
@@ -213,8 +221,9 @@ var zkSystems = []zkSystem{
 		D := C.Clone().Mul(ver, intOf(x))
 		rho := D.Randomize(ver, nil)
 		pub := zkmulstar.Public{C: C, D: D, X: modQ(x).ActOnBase(), Verifier: ver, Aux: e.aux}
+		priv := zkmulstar.Private{X: intOf(x), Rho: rho} // one witness object for every proof made from this instance
 		return &zkInst{pub: addr(pub),
-			prove:  func(h *hash.Hash) interface{} { return zkmulstar.NewProof(group, h, pub, zkmulstar.Private{X: intOf(x), Rho: rho}) },
+			prove:  func(h *hash.Hash) interface{} { return zkmulstar.NewProof(group, h, pub, priv) },
 			verify: func(h *hash.Hash, p reflect.Value, pr interface{}) bool { return pr.(*zkmulstar.Proof).Verify(group, h, p.Interface().(zkmulstar.Public)) }}
 	}},
 	{"nth", []string{"random", "1"}, func(r *vk.Rand, e zkEnv, class string) *zkInst {
@@ -227,16 +236,18 @@ var zkSystems = []zkSystem{
 		rho := natOf(rhoB)
 		R := N.ModulusSquared().Exp(rho, N.N().Nat())
 		pub := zknth.Public{N: N, R: R}
+		priv := zknth.Private{Rho: rho} // one witness object for every proof made from this instance
 		return &zkInst{pub: addr(pub),
-			prove:  func(h *hash.Hash) interface{} { return zknth.NewProof(h, pub, zknth.Private{Rho: rho}) },
+			prove:  func(h *hash.Hash) interface{} { return zknth.NewProof(h, pub, priv) },
 			verify: func(h *hash.Hash, p reflect.Value, pr interface{}) bool { return pr.(*zknth.Proof).Verify(h, p.Interface().(zknth.Public)) }}
 	}},
 	{"log", scalarClasses, func(r *vk.Rand, e zkEnv, class string) *zkInst {
 		a, b := LibScalar(scalarWitness(r, class)), LibScalar(randScalarBig(r))
 		H := b.ActOnBase()
 		pub := zklog.Public{H: H, X: a.ActOnBase(), Y: a.Act(H)}
+		priv := zklog.Private{A: a, B: b} // one witness object for every proof made from this instance
 		return &zkInst{pub: addr(pub),
-			prove:  func(h *hash.Hash) interface{} { return zklog.NewProof(group, h, pub, zklog.Private{A: a, B: b}) },
+			prove:  func(h *hash.Hash) interface{} { return zklog.NewProof(group, h, pub, priv) },
 			verify: func(h *hash.Hash, p reflect.Value, pr interface{}) bool { return pr.(*zklog.Proof).Verify(h, p.Interface().(zklog.Public)) }}
 	}},
 	{"elog", scalarClasses, func(r *vk.Rand, e zkEnv, class string) *zkInst {
@@ -245,8 +256,9 @@ var zkSystems = []zkSystem{
 		y := LibScalar(scalarWitness(r, class))
 		E, lambda := elgamal.Encrypt(X, y)
 		pub := zkelog.Public{E: E, ElGamalPublic: X, Base: H, Y: y.Act(H)}
+		priv := zkelog.Private{Y: y, Lambda: lambda} // one witness object for every proof made from this instance
 		return &zkInst{pub: addr(pub),
-			prove:  func(h *hash.Hash) interface{} { return zkelog.NewProof(group, h, pub, zkelog.Private{Y: y, Lambda: lambda}) },
+			prove:  func(h *hash.Hash) interface{} { return zkelog.NewProof(group, h, pub, priv) },
 			verify: func(h *hash.Hash, p reflect.Value, pr interface{}) bool { return pr.(*zkelog.Proof).Verify(h, p.Interface().(zkelog.Public)) }}
 	}},
 	{"sch", scalarClasses, func(r *vk.Rand, e zkEnv, class string) *zkInst {
@@ -267,25 +279,28 @@ var zkSystems = []zkSystem{
 	{"mod", []string{"key"}, func(r *vk.Rand, e zkEnv, class string) *zkInst {
 		sk := e.prover.sk
 		pub := zkmod.Public{N: sk.PublicKey.N()}
+		priv := zkmod.Private{P: sk.P(), Q: sk.Q(), Phi: sk.Phi()} // one witness object for every proof made from this instance
 		return &zkInst{pub: addr(pub),
-			prove:  func(h *hash.Hash) interface{} { return zkmod.NewProof(h, zkmod.Private{P: sk.P(), Q: sk.Q(), Phi: sk.Phi()}, pub, nil) },
+			prove:  func(h *hash.Hash) interface{} { return zkmod.NewProof(h, priv, pub, nil) },
 			verify: func(h *hash.Hash, p reflect.Value, pr interface{}) bool { return pr.(*zkmod.Proof).Verify(p.Interface().(zkmod.Public), h, nil) }}
 	}},
 	{"prm", []string{"key"}, func(r *vk.Rand, e zkEnv, class string) *zkInst {
 		sk := e.prover.sk
 		ped, lambda := sk.GeneratePedersen()
 		pub := zkprm.Public{Aux: ped}
+		priv := zkprm.Private{Lambda: lambda, Phi: sk.Phi(), P: sk.P(), Q: sk.Q()} // one witness object for every proof made from this instance
 		return &zkInst{pub: addr(pub),
 			prove: func(h *hash.Hash) interface{} {
-				return zkprm.NewProof(zkprm.Private{Lambda: lambda, Phi: sk.Phi(), P: sk.P(), Q: sk.Q()}, h, pub, nil)
+				return zkprm.NewProof(priv, h, pub, nil)
 			},
 			verify: func(h *hash.Hash, p reflect.Value, pr interface{}) bool { return pr.(*zkprm.Proof).Verify(p.Interface().(zkprm.Public), h, nil) }}
 	}},
 	{"fac", []string{"key"}, func(r *vk.Rand, e zkEnv, class string) *zkInst {
 		sk := e.prover.sk
 		pub := zkfac.Public{N: sk.PublicKey.N(), Aux: e.aux}
+		priv := zkfac.Private{P: sk.P(), Q: sk.Q()} // one witness object for every proof made from this instance
 		return &zkInst{pub: addr(pub),
-			prove:  func(h *hash.Hash) interface{} { return zkfac.NewProof(zkfac.Private{P: sk.P(), Q: sk.Q()}, h, pub) },
+			prove:  func(h *hash.Hash) interface{} { return zkfac.NewProof(priv, h, pub) },
 			verify: func(h *hash.Hash, p reflect.Value, pr interface{}) bool { return pr.(*zkfac.Proof).Verify(p.Interface().(zkfac.Public), h) }}
 	}},
 }
@@ -501,6 +516,18 @@ func c10Run(t *vk.T, sys zkSystem, class string, ei int, full bool) {
 		return
 	}
 	t.Distinct("%s|complete|%s", sys.name, class)
+	// the same prover proves the same statement again from the very same witness objects (one proof per recipient):
+	// completeness must not depend on how often the witness was used
+	var proofAgain interface{}
+	if p, fr, txt := vk.Guard(func() { proofAgain = inst.prove(h.Fork(hash.BytesWithDomain{TheDomain: "recipient", Bytes: []byte("second")})) }); p {
+		t.Violation(sys.name+"|prover-panic-on-reuse|"+class+"|"+fr, "prover panicked when the witness was used for a second proof: %s", txt)
+		return
+	}
+	if ok2, _ := c10Verify(t, inst, h.Fork(hash.BytesWithDomain{TheDomain: "recipient", Bytes: []byte("second")}), inst.pub, proofAgain); !ok2 {
+		t.Violation(sys.name+"|completeness-on-witness-reuse|"+class, "a second honest proof made from the same witness objects (class %s) does not verify", class)
+		return
+	}
+	t.Obs("second_proofs_from_same_witness", 1)
 	if !full {
 		return
 	}
@@ -611,6 +638,28 @@ func c10Run(t *vk.T, sys zkSystem, class string, ei int, full bool) {
 		for tk, tv := range tweaks(fl[i].v) {
 			try("proof-field-"+tk, tv)
 		}
+	}
+	// parallel rounds transplanted from another valid proof of the same statement and context: the challenge must
+	// depend on every commitment, so a hybrid must not verify
+	for _, idx := range []int{0, 1, 40, 79} {
+		pv := reflect.ValueOf(fx.DeepCopy(proof))
+		ov := reflect.ValueOf(fx.DeepCopy(proof1b))
+		if pv.Kind() != reflect.Ptr || pv.IsNil() || pv.Elem().Kind() != reflect.Struct {
+			break
+		}
+		moved := 0
+		for f := 0; f < pv.Elem().NumField(); f++ {
+			a, b := pv.Elem().Field(f), ov.Elem().Field(f)
+			if (a.Kind() == reflect.Slice || a.Kind() == reflect.Array) && a.Len() >= 2 && a.Len() == b.Len() && a.Type().Elem().Kind() != reflect.Uint8 && a.Index(0).CanSet() {
+				a.Index(idx % a.Len()).Set(b.Index(idx % a.Len()))
+				moved++
+			}
+		}
+		if moved == 0 {
+			break
+		}
+		t.Obs("round_transplants", 1)
+		expectReject("round-transplanted-from-other-proof-same-statement", fmt.Sprintf("round[%d]", idx), inst.pub, pv.Interface(), h)
 	}
 	// whole proof of another statement / same statement under the other instance's inputs
 	expectReject("proof-of-other-statement", "proof", inst.pub, proof2, h)
